@@ -23,6 +23,8 @@ var verifGateFn atomic.Pointer[func(point string, m *FloodSub, objs ...any)]
 //	"floodsub.execTop"   ()  Execute, top of the loop, before the new-session region
 //	"floodsub.holdBreak" ()  Execute, between the new-session region and the channel sweep region
 //	"floodsub.execSent"  ()  Execute, after the subscription changes were queued to the peers
+//	"floodsub.peerAdded" (tpl pubsub.PeerLinkTuple) AddPeerStream, session registered (m.mtx released), before Execute is woken
+//	"floodsub.sessionEnded" (tpl pubsub.PeerLinkTuple) session goroutine, after the session ended and its tear-down ran (m.mtx released)
 //
 // "floodsub.deliver" and the Execute points are called without any floodsub lock held;
 // "floodsub.seen" is called without m.mtx held.
@@ -91,6 +93,10 @@ func (m *FloodSub) VerifSeen(msgID string) bool {
 	_, ok := m.seenMessages.Get(msgID)
 	return ok
 }
+
+// VerifPublishQueue reports the number of accepted messages waiting in publishCh for execPublish
+// and the capacity of that queue.
+func (m *FloodSub) VerifPublishQueue() (n, capacity int) { return len(m.publishCh), cap(m.publishCh) }
 
 // VerifSendQueue reports the number of packets waiting in the send queue (packetCh) of the
 // session currently registered for tpl and the capacity of that queue. ok is false when no
